@@ -17,7 +17,7 @@ from ..runner import Result
 ID = 'C14'
 LEVEL = 'exploration'
 BUDGET = {'quick': 2500, 'thorough': 10000}
-RULE = ("Case = destination kind (recorder probe, Input, Counter, two-state FSM; by name or by object) x "
+RULE = ("Case = destination kind (recorder probe, Input, Counter, two-state FSM, a block whose specialized handler returns unusual objects such as UNDEF; by name or by object) x "
         "ExtEvent default source (absent, plain, prefixed, generated text) x termination kind (shutdown(), "
         "abort(exc), failing event handler, Event.abort() control event) x one send attempt per lifecycle phase "
         "(not started, task created, initialising with an init_async in progress, running x3, aborting, "
@@ -73,6 +73,19 @@ class Toggle(edzed.FSM):
     EVENTS = [('go', 'a', 'b'), ('go', 'b', 'a')]
 
 
+class Latch(edzed.SBlock):
+    """a destination with a specialized handler whose results are unusual objects (UNDEF among them)"""
+    RESULTS = [edzed.UNDEF, None, 0, False, '', NotImplemented, 'text']
+
+    def init_regular(self):
+        self.set_output(0)
+
+    def _event_put(self, **_data):
+        n = self.output
+        self.set_output(n + 1)
+        return self.RESULTS[n % len(self.RESULTS)]
+
+
 source_st = st.one_of(st.sampled_from(SOURCES), st.text(max_size=8))
 shape_st = st.fixed_dictionaries({
     'value': st.sampled_from(['pos', 'kw', 'absent']),
@@ -91,7 +104,7 @@ PHASES = ['not started', 'task created', 'initialising', 'running', 'running', '
 
 @st.composite
 def cases(draw):
-    dest = draw(st.sampled_from(['rec', 'input', 'counter', 'fsm']))
+    dest = draw(st.sampled_from(['rec', 'input', 'counter', 'fsm', 'latch']))
     shapes = []
     for _ in PHASES + ['failed start']:
         sh = draw(shape_st)
@@ -147,6 +160,8 @@ def execute(case):
             dest, etype = edzed.Input('dst', initdef='init', **pkw), 'put'
         elif kind == 'counter':
             dest, etype = edzed.Counter('dst', **pkw), 'inc'
+        elif kind == 'latch':
+            dest, etype = Latch('dst'), 'put'
         else:
             dest, etype = Toggle('dst', **pkw), 'go'
         orig = dest.event
@@ -277,6 +292,7 @@ def execute(case):
     default = '_ext_' if case['default_source'] is None else prefixed(case['default_source'])
     count = 0           # Counter model
     fsm = 'a'
+    latched = 0         # Latch model: number of events handled
     if case.get('eager_attempt') and obs.get('eager_start') != 'refused':
         res.fail('C14.eager_start', f"run_forever() with an eager task factory: {obs.get('eager_start')}")
     for k, a in enumerate(obs['attempts']):
@@ -303,7 +319,7 @@ def execute(case):
         if a['args']:
             want['value'] = a['args'][0]
         want['source'] = default if sh['source'] is None else prefixed(sh['source'][1])
-        etype = {'rec': 'x', 'input': 'put', 'counter': 'inc', 'fsm': 'go'}[case['dest']]
+        etype = {'rec': 'x', 'input': 'put', 'counter': 'inc', 'fsm': 'go', 'latch': 'put'}[case['dest']]
         if len(a['seen']) < 1 or a['seen'][0] != (etype, want):
             res.fail('C14.delivered_data', f"{tag}: destination saw {a['seen'][:1]}, expected {(etype, want)}")
             continue
@@ -315,6 +331,10 @@ def execute(case):
             ok = a['out'][0] == 'ret' and a['out'][1][:2] == ['rec', 'rec']
         elif case['dest'] == 'input':
             ok = a['out'] == ['ret', True] and a['state_after'][0] == want['value']
+        elif case['dest'] == 'latch':
+            result = Latch.RESULTS[latched % len(Latch.RESULTS)]
+            latched += 1
+            ok = a['out'][0] == 'ret' and a['out'][1] is result and a['state_after'][0] == latched
         elif case['dest'] == 'counter':
             count += want.get('amount', 1)
             ok = a['out'] == ['ret', count] and a['state_after'][0] == count
